@@ -60,6 +60,9 @@ INJECTED_TYPES = {
         ("FloatingPointError", FloatingPointError),
         ("NotImplementedError", NotImplementedError),
         ("ValueError", ValueError),
+        # not Exception subclasses: Ctrl-C and task cancellation also leave a block "by exception"
+        ("KeyboardInterrupt", KeyboardInterrupt),
+        ("CancelledError", __import__("asyncio").CancelledError),
     ]
 }
 
